@@ -181,6 +181,34 @@ CHECKS = {
         design_ref="DESIGN.md 5 C16", category="model_checking",
         note="A relative configuration is interpreted in the working directory at configuration time. Trusted: TLC, the client "
              "driver's projection of answers."),
+    "C17": dict(
+        engine="tlc-design+tlc-generate",
+        technique="TLA+ spec StoreCodec (registry maps transcribed from dds/codec.py, per-blob persisted reference, processes with "
+                  "different registries) model-checked by TLC (ReaderIsWriter, BuiltinVerbatim); simulated behaviours replayed on "
+                  "LocalFileStore with instrumented user codecs and empty / non-ASCII / 1 MB values, raw blob bytes inspected",
+        text="TLC checks on the full state graph that a fetch that returns is decoded by the codec recorded at write time (a process "
+             "lacking it gets PROTOCOL_NOT_FOUND) and that str / bytes go to the verbatim built-in codecs unless a user codec took "
+             "the type over. Simulated length-9 behaviours (register user codec / file codec, store, fetch, new process with any "
+             "re-registration) are replayed: the persisted reference, the deserialising codec (instrumented), equality and type of "
+             "the fetched value and verbatim-ness of the blob file must match the spec; two end-to-end keeps check the file under "
+             "<data_dir>/<path> is the raw text / bytes.",
+        design_ref="DESIGN.md 5 C17", category="model_checking",
+        note="Byte-level fidelity of pickle / parquet is outside the model (equality is checked on real values). Two different "
+             "codecs claiming one reference are out of scope."),
+    "C19": dict(
+        engine="tlc-design+tlc-generate",
+        technique="TLA+ spec StoreDbfs (blob / metadata / copy / redirect-record files per commit type, legacy references) "
+                  "model-checked by TLC (CommitHonoured, LoadIffRecord, LegacyKind); generated behaviours replayed through "
+                  "dds.set_store('dbfs', commit_type=<documented spelling>) on an in-process fake of dbutils.fs, files inspected "
+                  "after every step; StoreModel behaviours replayed on DBFSStore(fake)",
+        text="Per commit type TLC checks what a path commit leaves under the data directory and that load works iff the redirect "
+             "record exists, and that the decoding codec has the kind of the value for current and legacy references. All length-3 "
+             "and simulated length-7 behaviours (keep / load of str, bytes, None, object results at paths incl. a dot-named one; "
+             "planted legacy blobs) are replayed with every documented spelling of the commit type: returned values, whether the "
+             "function ran, byte-identity of <data_dir>/<path> with the blob, and the record's key are compared with the spec "
+             "after every step; the C08 store contract is replayed on the DBFS store as well.",
+        design_ref="DESIGN.md 5 C19", category="model_checking",
+        note="No Databricks runtime: cp / put / head / rm semantics of the fake are an assumption; the PySpark codec is not exercised."),
     "C08": dict(
         engine="tlc-design+tlc-generate+tlc-trace",
         technique="TLA+ spec StoreModel (dictionary store with path identity = segment sequence) model-checked by TLC over its "
